@@ -216,23 +216,26 @@ package wallet
 //@ axiom forall v, k int :: { sigbit(v, k) } sigbit(v, k) == getbit(tokByte(v, k / 8), k % 8)
 //@ pred sigTokSame(w io.Writer, p int, s Sig) = wtokKind(w, p) == tokkind("bytes") && wtokLen(w, p) == len(s) && forall j int :: 0 <= j && j < len(s) ==> tokByte(wtokVal(w, p), j) == s[j]
 //@ pred sigSame(y Sig, x Sig) = (x == nil ==> y == nil) && (x != nil ==> len(y) == len(x) && forall j int :: 0 <= j && j < len(x) ==> y[j] == x[j])
-//@ pred sigsAny(x []Sig) = true
-//@ pred sigsEq(y []Sig, x []Sig) = len(y) == len(x) && forall k int :: 0 <= k && k < len(x) ==> sigSame(y[k], x[k])
-//@ codecfn EncodeSparseSigs DecodeSparseSigs wf sigsAny eq sigsEq by verifRoundTripSparseSigs
-//@ func verifRoundTripSparseSigs
+// The encoder on its own (verified separately and used through this contract by the lemma function, which keeps the bit-setting
+// facts out of the decoder's proof): the mask token tells for every slot whether a signature follows, and rec("S", k) is where
+// slot k's signature is written.
+//@ pred sparseEncoded(w io.Writer, p int, sigs []Sig) = wtokKind(w, p) == tokkind("bytes") && wtokLen(w, p) == (len(sigs) + 7) / 8 && rec("S", 0) == p + 1 &&
+//@   (forall k int :: 0 <= k && k < len(sigs) ==> (sigs[k] != nil ==> sigbit(wtokVal(w, p), k) == 1) && (sigs[k] == nil ==> sigbit(wtokVal(w, p), k) == 0)) &&
+//@   (forall k int :: 0 <= k && k <= len(sigs) ==> rec("S", k) >= p + 1) &&
+//@   (forall k int :: 0 <= k && k < len(sigs) ==> (sigs[k] != nil ==> rec("S", k + 1) == rec("S", k) + 1 && sigTokSame(w, rec("S", k), sigs[k]))) &&
+//@   (forall k int :: 0 <= k && k < len(sigs) ==> (sigs[k] == nil ==> rec("S", k + 1) == rec("S", k)))
+//@ func EncodeSparseSigs
 //@   tokenmodel
-//@   requires w0 != nil && r0 != nil && sigsAny(x)
-//@   modifies *
-//@   inlines EncodeSparseSigs, DecodeSparseSigs
-//@   ensures encErr == nil && !rfail(r0) && !rejected(r0) ==> decErr == nil
-//@   ensures encErr == nil && decErr == nil ==> !desync(r0) && rcount(r0) - old(rcount(r0)) == wcount(w0) - old(wcount(w0))
-//@   ensures encErr == nil && decErr == nil ==> sigsEq(y, x)
-//@   loop EncodeSparseSigs.1
+//@   requires w != nil
+//@   modifies ghost("wcount"), ghost("tkind"), ghost("tlen"), ghost("tval"), ghost("rec:S")
+//@   ensures result == nil ==> sparseEncoded(w, old(wcount(w)), sigs) && wcount(w) == rec("S", len(sigs))
+//@   ensures result == nil ==> forall k int :: 0 <= k && k < len(sigs) ==> (sigs[k] != nil ==> rec("S", k) < wcount(w))
+//@   loop 1
 //@     modifies fresh
 //@     invariant len(mask) == (len(sigs) + 7) / 8 && fresh(arr(mask)) && n == len(sigs)
 //@     invariant forall k int :: 0 <= k && k < $i ==> (sigs[k] != nil ==> getbit(mask[k / 8], k % 8) == 1) && (sigs[k] == nil ==> getbit(mask[k / 8], k % 8) == 0)
 //@     invariant forall k int :: $i <= k && k < 8 * len(mask) ==> getbit(mask[k / 8], k % 8) == 0
-//@   loop EncodeSparseSigs.2
+//@   loop 2
 //@     record S = wcount(w)
 //@     invariant rec("S", 0) == old(wcount(w)) + 1 && n == len(sigs)
 //@     invariant wtokKind(w, old(wcount(w))) == tokkind("bytes") && wtokLen(w, old(wcount(w))) == (len(sigs) + 7) / 8
@@ -240,8 +243,21 @@ package wallet
 //@     invariant forall k int :: 0 <= k && k <= $i ==> rec("S", k) >= old(wcount(w)) + 1
 //@     invariant forall k int :: 0 <= k && k < $i ==> (sigs[k] != nil ==> rec("S", k + 1) == rec("S", k) + 1 && rec("S", k) < wcount(w) && sigTokSame(w, rec("S", k), sigs[k]))
 //@     invariant forall k int :: 0 <= k && k < $i ==> (sigs[k] == nil ==> rec("S", k + 1) == rec("S", k))
+//@ pred sigsAny(x []Sig) = true
+//@ pred sigsEq(y []Sig, x []Sig) = len(y) == len(x) && forall k int :: 0 <= k && k < len(x) ==> sigSame(y[k], x[k])
+//@ codecfn EncodeSparseSigs DecodeSparseSigs wf sigsAny eq sigsEq by verifRoundTripSparseSigs
+//@ func verifRoundTripSparseSigs
+//@   tokenmodel
+//@   requires w0 != nil && r0 != nil && sigsAny(x)
+//@   modifies *
+//@   inlines DecodeSparseSigs
+//@   ensures encErr == nil && !rfail(r0) && !rejected(r0) ==> decErr == nil
+//@   ensures encErr == nil && decErr == nil ==> !desync(r0) && rcount(r0) - old(rcount(r0)) == wcount(w0) - old(wcount(w0))
+//@   ensures encErr == nil && decErr == nil ==> sigsEq(y, x)
 //@   loop DecodeSparseSigs.1
 //@     modifies fresh, ghost("rcount"), ghost("desync"), ghost("rfail"), ghost("rejected")
+//@     invariant sparseEncoded(w0, old(wcount(w0)), x)
+//@     invariant forall k int :: 0 <= k && k < len(x) ==> (x[k] != nil ==> rec("S", k) < wcount(w0))
 //@     invariant err == nil && !desync(r) && len(*sigs) == len(x) && len(mask) == (len(x) + 7) / 8 && 0 <= maskIdx && maskIdx <= len(mask) && fresh(arr(*sigs)) && fresh(arr(mask))
 //@     invariant (8 * maskIdx <= len(x) ==> sigIdx == 8 * maskIdx) && (8 * maskIdx > len(x) ==> sigIdx == len(x))
 //@     invariant rcount(r) == old(rcount(r0)) + rec("S", sigIdx) - old(wcount(w0))
@@ -249,6 +265,9 @@ package wallet
 //@     invariant forall k int :: 0 <= k && k < sigIdx ==> sigSame((*sigs)[k], x[k])
 //@   loop DecodeSparseSigs.2
 //@     modifies fresh, ghost("rcount"), ghost("desync"), ghost("rfail"), ghost("rejected")
+//@     invariant sparseEncoded(w0, old(wcount(w0)), x)
+//@     invariant forall k int :: 0 <= k && k < len(x) ==> (x[k] != nil ==> rec("S", k) < wcount(w0))
+//@     invariant bitIdx < 8 ==> sigIdx / 8 == maskIdx && sigIdx % 8 == bitIdx
 //@     invariant err == nil && !desync(r) && len(*sigs) == len(x) && len(mask) == (len(x) + 7) / 8 && 0 <= maskIdx && maskIdx < len(mask) && fresh(arr(*sigs)) && fresh(arr(mask))
 //@     invariant 0 <= bitIdx && bitIdx <= 8 && sigIdx == 8 * maskIdx + bitIdx && sigIdx <= len(x)
 //@     invariant rcount(r) == old(rcount(r0)) + rec("S", sigIdx) - old(wcount(w0))
